@@ -241,6 +241,69 @@ def run(ctx: Ctx, rs: RuleSet, tier: str):
                  'a literal: the emitted expression raises NameError or '
                  'picks up an unrelated variable'), ctx.loc(f, f.node))
 
+  # ---- parameters of a generated function are distinct
+  rule = 'WMC.unique-parameters'
+  rs.declare(rule, 'a code_ir.Parameter is added to a generated function only '
+             'once per name', 1)
+  n_par = 0
+  for modname in sorted(ctx.p.modules):
+    if not modname.startswith(AC + '.'):
+      continue
+    for f in ctx.mod(modname).all_funcs:
+      gpf = None
+      for c in ctx.calls(f):
+        if not (isinstance(c.func, ast.Attribute) and c.func.attr == 'append' and
+                c.args and isinstance(c.args[0], ast.Call) and unparse(
+                    c.args[0].func).endswith('code_ir.Parameter')):
+          continue
+        n_par += 1
+        gpf = gpf or ctx.cfg(f)
+        node = next((n for n in gpf.nodes() if any(
+            e is c for e in cfg_lib.walk_node(gpf, n))), None)
+        # inside a loop: either the iteration visits each object once
+        # (memoized) or a membership test on the names guards the append
+        loops = [m for m in gpf.nodes() if gpf.kind[m] == 'for' and node in
+                 gpf.reach([x for x, lab in gpf.succ[m] if lab == 'iter'],
+                           blocked={m}, labels=cfg_lib.NO_EXC)]
+        unmemoized = [m for m in loops if any(
+            isinstance(k, ast.keyword) and k.arg == 'memoized' and isinstance(
+                k.value, ast.Constant) and k.value.value is False
+            for k in ast.walk(gpf.stmt[m].iter))]
+        def _exclusive(m):
+          # the append lies on exactly one branch of the membership test
+          t = gpf.reach([y for y, lab in gpf.succ[m] if lab == 'true'],
+                        blocked={m} | set(loops), labels=cfg_lib.NO_EXC)
+          e = gpf.reach([y for y, lab in gpf.succ[m] if lab == 'false'],
+                        blocked={m} | set(loops), labels=cfg_lib.NO_EXC)
+          return (node in t) != (node in e)
+
+        recv = c.func.value
+        while isinstance(recv, (ast.Subscript, ast.Attribute)):
+          recv = recv.value
+        recv_name = recv.id if isinstance(recv, ast.Name) else unparse(recv)
+        guarded = any(gpf.kind[m] == 'if' and any(
+            isinstance(x, ast.Compare) and isinstance(
+                x.ops[0], (ast.NotIn, ast.In)) and any(
+                    isinstance(y, ast.Name) and y.id == recv_name
+                    for y in ast.walk(x.comparators[0]))
+            for x in ast.walk(gpf.stmt[m].test))
+                      and _exclusive(m) and any(
+                          m in gpf.reach([y for y, lab in gpf.succ[h]
+                                          if lab == 'iter'], blocked={h},
+                                         labels=cfg_lib.NO_EXC)
+                          for h in unmemoized)
+                      for m in gpf.nodes())
+        ok = not unmemoized or guarded
+        rs.check(ok, rule, f'{f.qualname}:`{norm_text(f, c, 50)}`',
+                 'appended once per name' if ok else
+                 f'`{unparse(c)[:60]}` runs inside an un-memoized traversal, '
+                 'which reaches a sub-fixture once per reference: a '
+                 'sub-fixture used twice gets the same parameter twice '
+                 '(`def b(foo, foo)` - the generated module does not compile)',
+                 ctx.loc(f, c))
+  if n_par == 0:
+    raise AnalysisError('no code_ir.Parameter append found')
+
   # ---- the emitted with_tags call fits with_tags' signature
   rule = 'AGREE.with-tags-arity'
   rs.declare(rule, 'auto_config.with_tags(...) is emitted with the arguments '
